@@ -255,6 +255,15 @@ def check(run):
                             vals.append(True)
                         except Exception as e:   # noqa
                             vals.append(False)
+                            # reading again (also after str()) must fail again: no half-built result may be cached
+                            try:
+                                _ = str(a)
+                                again = a.value
+                                run.violation("value-raises-decode-error", dict(case, history="value read twice"),
+                                              f"second read returned {type(again).__name__}", "AvpDecodeError again",
+                                              what=f"{O.tyname_of(a)} .value raises on the first read of a malformed payload but returns a value on the second")
+                            except Exception:   # noqa
+                                pass
                             if O.err_kind(e) != "AvpDecodeError":
                                 run.violation("value-raises-decode-error", case, O.err_kind(e),
                                               what=f"{O.tyname_of(a)} .value raises {O.err_kind(e)} instead of AvpDecodeError")
